@@ -18,7 +18,11 @@ class E1(Exception):
 
 
 class E2(Exception):
-    pass
+    """Its instances are FALSY (like an error-collection exception that defines __len__ and happens to be empty): every
+    plan that uses E2 also exercises the engine's handling of failures whose truth value is False."""
+
+    def __bool__(self) -> bool:
+        return False
 
 
 class Fatal(BaseException):
@@ -28,6 +32,35 @@ class Fatal(BaseException):
 
 class CollabError(Exception):
     pass
+
+
+class ExcValue(Exception):
+    """An exception INSTANCE that a node RETURNS as an ordinary value (an error descriptor): never raised."""
+
+    def __eq__(self, other) -> bool:
+        return type(other) is ExcValue and other.args == self.args
+
+    def __hash__(self) -> int:
+        return hash(('ExcValue', self.args))
+
+
+class Ambig:
+    """A value whose truth value is ambiguous (numpy / pandas style): bool(v) raises."""
+
+    def __init__(self, payload) -> None:
+        self.payload = payload
+
+    def __bool__(self) -> bool:
+        raise ValueError('The truth value of an Ambig is ambiguous')
+
+    def __eq__(self, other) -> bool:
+        return type(other) is Ambig and other.payload == self.payload
+
+    def __hash__(self) -> int:
+        return hash(('Ambig', self.payload))
+
+    def __repr__(self) -> str:
+        return f'Ambig({self.payload!r})'
 
 
 EXC = {'E1': E1, 'E2': E2, 'Fatal': Fatal}
@@ -159,6 +192,10 @@ def _finish(w: World, rid: int, name: str, i: int, kw: dict, node_self: t.Any, f
         return None
     if oc == 'zero':
         return 0
+    if oc == 'ambig':
+        return Ambig(prov(name, kw))
+    if oc == 'excval':
+        return ExcValue(name, prov(name, kw))
     if oc.startswith('label:'):
         return oc[6:]
     if oc.startswith('raise:'):
@@ -167,6 +204,8 @@ def _finish(w: World, rid: int, name: str, i: int, kw: dict, node_self: t.Any, f
         raise e
     if oc == 'next':
         return node_self.next_iteration(('it', name, i))
+    if oc == 'next0':
+        return node_self.next_iteration(0)      # a falsy, non-None payload
     raise AssertionError(oc)
 
 
@@ -189,12 +228,18 @@ def pure_value(name: str, kw: t.Mapping, oc: str, node_self: t.Any, i: int = 0):
         return None
     if oc == 'zero':
         return 0
+    if oc == 'ambig':
+        return Ambig(prov(name, kw))
+    if oc == 'excval':
+        return ExcValue(name, prov(name, kw))
     if oc.startswith('label:'):
         return oc[6:]
     if oc.startswith('raise:'):
         raise EXC[oc[6:]](name, i)
     if oc == 'next':
         return node_self.next_iteration(('it', name, i))
+    if oc == 'next0':
+        return node_self.next_iteration(0)
     raise AssertionError(oc)
 
 
@@ -251,6 +296,12 @@ def default(name: str, kw: t.Mapping, node_self: t.Any = None):
     rid = RUN.get()
     kw = _norm_kw(kw)
     w.log.append(('default', rid, name, kw, w.now()))
+    if getattr(type(node_self), '_mc_default_raises', False):
+        i = w.count.get((rid, name), 1) - 1
+        e = E2(name, i)
+        e.from_default = True
+        w.raised.append((rid, name, i, e))
+        raise e
     if not _factory_built(node_self):
         return ('default', name, tuple(sorted(kw.items(), key=lambda kv: kv[0])), ('instance-not-factory-built',))
     return ('default', name, tuple(sorted(kw.items(), key=lambda kv: kv[0])))
